@@ -2,6 +2,7 @@ package props
 
 import (
 	"fmt"
+	"go/types"
 	"strings"
 
 	"golang.org/x/tools/go/ssa"
@@ -28,6 +29,9 @@ func runC18(c *Ctx) {
 	c.Rule("C18.O11", "E4", "nbhttp Shutdown's wait loop closes the tracked connections on every iteration, not only before the loop: connections that appear in the tables after the first sweep are closed too", 1)
 	c.Rule("C18.O12", "E4", "a dialer whose registration fails is torn down without a close notification (Conn.p is nil when addDialer runs the teardown): DialAsyncTimeout releases the connection WaitGroup count itself on that error, a notifying teardown would release it twice and Stop's accounting goes negative", 2)
 	c18DialerFailure(c)
+	c.Rule("C18.O13", "E4", "a producer can always be released by Stop: every send to the task pool's queue channel is a select case next to a receive from the pool's close channel (or non-blocking); a plain send blocks the poller goroutine that submits read jobs for ever once the queue is full and the pool stopped", 1)
+	c.Rule("C18.O14", "E4", "a transferred connection is tracked before it is registered: AddTransferredConn's insert into Engine.conns precedes AddConn (the close job's delete can then only come after it), and the failure path undoes it", 1)
+	c18Round5(c)
 	c.Rule("C18.O7", "E4", "the blocking readers' deferred clean-up removes the connection from the tracked set (delete(engine.conns, key) under Engine.mux), reports the close and releases the load slot on every path: Shutdown waits for the set to drain; it closes the connection it was reading unless that was transferred", 4)
 	c.Rule("C18.O8", "E4", "every torn-down connection reaches the close notification that releases the connection WaitGroup (same rule as C03.O9): Stop waits on it", 1)
 	c.Rule("C18.O9", "E5", "the listener mux's close channel is created once, in its constructor: the channel listeners copy it when they are made, so a later re-assignment leaves them waiting on a channel nobody closes", 1)
@@ -708,5 +712,69 @@ func c18DialerFailure(c *Ctx) {
 	}
 	if n == 0 {
 		c.Unres("C18.O12", fnKey(c.P, fn, "failure teardown"), "no teardown call found in addDialer")
+	}
+}
+
+// c18Round5: O13, O14.
+func c18Round5(c *Ctx) {
+	n := 0
+	bad := ""
+	for _, f := range c.pkgFuncs("taskpool") {
+		for _, b := range f.Blocks {
+			for _, in := range b.Instrs {
+				switch x := in.(type) {
+				case *ssa.Send:
+					if strings.HasSuffix(c.P.LoadedField(ir.Resolve(x.Chan)), ".chQqueue") {
+						n++
+						bad = "the send to the queue at " + c.Pos(x) + " is a plain blocking send: with the queue full, Stop (which closes chClose) cannot release the sender; in async-read mode the sender is the poller goroutine and Engine.Stop waits for it for ever"
+					}
+				case *ssa.Select:
+					sends, closeRecv := false, false
+					for _, st := range x.States {
+						fld := c.P.LoadedField(ir.Resolve(st.Chan))
+						if st.Dir == types.SendOnly && strings.HasSuffix(fld, ".chQqueue") {
+							sends = true
+						}
+						if st.Dir == types.RecvOnly && strings.HasSuffix(fld, ".chClose") {
+							closeRecv = true
+						}
+					}
+					if sends {
+						n++
+						if x.Blocking && !closeRecv {
+							bad = "the blocking select at " + c.Pos(x) + " sends to the queue without a case for the close channel"
+						}
+					}
+				}
+			}
+		}
+	}
+	if n == 0 {
+		c.Unres("C18.O13", "taskpool: queue sends", "no send to TaskPool.chQqueue found")
+	} else {
+		c.Cond(bad == "", "C18.O13", "taskpool: queue sends", "", fmt.Sprintf("%d send site(s), each releasable by the close channel", n), bad)
+	}
+	if fn := c.Fn("C18.O14", "(*nbhttp.Engine).AddTransferredConn"); fn != nil {
+		fi := c.P.Info(fn)
+		var add ssa.Instruction
+		for _, cs := range c.P.CallsNamed(fn, "(*nbio.Engine).AddConn") {
+			add = cs.In
+		}
+		var ins ssa.Instruction
+		for _, b := range fn.Blocks {
+			for _, in := range b.Instrs {
+				if mu, ok := in.(*ssa.MapUpdate); ok && c.P.LoadedField(ir.Resolve(mu.Map)) == "nbhttp.Engine.conns" {
+					ins = in
+				}
+			}
+		}
+		key := fnKey(c.P, fn, "tracked before registered")
+		switch {
+		case add == nil || ins == nil:
+			c.Unres("C18.O14", key, "AddConn call / tracking insert not found")
+		default:
+			c.Cond(!fi.CanReach(add, ins), "C18.O14", key, c.Pos(ins), "insert precedes AddConn",
+				"the connection is inserted into Engine.conns at "+c.Pos(ins)+" after it was registered ("+c.Pos(add)+"): if it is closed in between (the peer hangs up during the open handler) the close job's delete comes first and the late insert leaves a stale entry; Shutdown then never sees the table drain")
+		}
 	}
 }
